@@ -24,7 +24,7 @@ BOUNDS = {
 RULE = (
     "BFS to fixpoint over all histories of {insert, bulk insert pair, bulk upsert, mixed bulk, replace(id), replace_last, delete(id), delete(never-existed)} "
     "with event values from the alphabet and ids ranging over all live ids, at most K live events; states deduplicated on the implementation's raw table dump with rank-renamed ids, refined (configs marked shaped) by the id-gap pattern and hidden allocator counter so that allocator-dependent behaviour is explored from every gap shape; "
-    "a transition is non-trivial when its pre-state holds >=2 events tying in start or end instant, or a zero-length event, or the op addresses an id that is not the most recently inserted one"
+    "a transition is non-trivial when its pre-state holds >=2 events tying in start or end instant, or the op addresses an id that is not the most recently inserted one"
 )
 ASSUMPTIONS = [
     "single insert of an event that already carries an id is not in the alphabet (statement lists bulk upsert only)",
@@ -119,7 +119,7 @@ def expand_with(backend, wdir, hist, E, K, prefix=()):
         u.hist["op_" + op[0]] += 1
         for t in tags:
             u.hist[t] += 1
-        if tags:
+        if {"pre_start_tie", "pre_end_tie", "addresses_older_id", "repl_newest_start_tie", "repl_max_end_tie"} & set(tags):
             u.nontrivial += 1
         if op[0] == "repl" and x["target"] is not None and x["target"] != max(pre.live):
             u.hist["repl_target_not_last_inserted"] += 1
